@@ -7,7 +7,7 @@ ROOT = os.path.dirname(os.path.dirname(os.path.abspath(__file__)))
 allp = [json.loads(l)['id'] for l in open(os.path.join(ROOT, 'properties.jsonl'))]
 checks = []
 for pid in allp:
-    if pid not in PROPS: continue
+    if pid not in PROPS or not PROPS[pid]['theorems']: continue
     P = PROPS[pid]
     checks.append({
         'property_id': pid, 'quick_cmd': './check %s --tier quick' % pid, 'thorough_cmd': './check %s --tier thorough' % pid,
@@ -16,7 +16,7 @@ for pid in allp:
                           'design_ref': 'DESIGN.md §6 ' + pid},
         'level_note': P.get('note', ''), 'technique': P.get('technique', 'Lean 4 machine-checked proof + model/implementation correspondence'),
     })
-na = [{'property_id': pid, 'reason': NOT_APPLICABLE.get(pid, 'check not built yet in this session (work in progress); not claimed')} for pid in allp if pid not in PROPS]
+na = [{'property_id': pid, 'reason': NOT_APPLICABLE.get(pid, 'check not built yet in this session (work in progress); not claimed')} for pid in allp if pid not in PROPS or not PROPS[pid]['theorems']]
 m = {
  'version': 1, 'setup_cmd': './check setup',
  'hooks': {'guard': 'LZ4_VERIF',
